@@ -431,6 +431,7 @@ class Evaluator:
         self.recurse_as: set = set()  # calls to these are recursion points (used when a reference definition calls the routine it defines)
         self.max_paths = max_paths
         self.types: dict[Term, Any] = {}
+        self.declared: set = set()  # terms typed by a LOCAL annotation only (see AnnAssign): isinstance() on them is not folded
         self._fresh = itertools.count()
         self.stack: list[str] = []
         self.unknowns: list[tuple[str, int, str]] = []
@@ -741,6 +742,10 @@ class Evaluator:
                     typ = self.parse_ann(func.module, st.annotation)
                     if typ is not None and v not in self.types and v[0] not in ("const", "rec", "listlit", "tuplelit", "setlit", "dictlit", "empty"):
                         self.set_type(v, typ)
+                        # a LOCAL annotation is a claim of the author, good for resolving methods; an isinstance() test on the value (or on its
+                        # elements) is there precisely because nothing enforces it, and is not decided from it
+                        if self._caller_supplied(v):
+                            self.declared.add(v)
                 outs.append((s2, "fall", None, line))
             return outs
         if isinstance(st, ast.AugAssign):
@@ -1505,7 +1510,35 @@ class Evaluator:
         v = self.fresh("t_")
         return v
 
+    def _caller_supplied(self, v: Term, depth: int = 0) -> bool:
+        """the value is an argument of the routine as the caller handed it over, at most copied into another container (`set(x)`, `x or ()`,
+        `set() if x is None else set(x)`): what its elements are is the caller's business, an annotation does not make it so"""
+        if depth > 6 or not is_term(v):
+            return False
+        if v[0] == "var":
+            return not str(v[1]).startswith("%")
+        if v[0] in ("empty",) or (v[0] in ("setlit", "listlit", "tuplelit") and not v[1]) or (v[0] == "const" and v[1] is None):
+            return True
+        if v[0] == "call" and v[1] in ("set", "frozenset", "list", "tuple", "sorted", "iter") and len(v[2]) == 1 and not v[3]:
+            return self._caller_supplied(v[2][0], depth + 1)
+        if v[0] == "call" and v[1] in ("set", "frozenset", "list", "tuple") and not v[2] and not v[3]:
+            return True
+        if v[0] == "setof" and len(v) == 2:
+            return self._caller_supplied(v[1], depth + 1)
+        if v[0] == "ite" and len(v) == 4:
+            a, b = v[2], v[3]
+            return self._caller_supplied(a, depth + 1) and self._caller_supplied(b, depth + 1) and any(x[0] in ("var", "call", "setof") for x in (a, b))
+        return False
+
     def _type_bound(self, pat: Term, it: Term) -> None:
+        src = it
+        while (src[0] == "call" and src[1] in ("set", "frozenset", "list", "tuple", "sorted", "iter", "reversed") and len(src[2]) == 1) or (src[0] == "setof" and len(src) == 2):
+            if src in self.declared:
+                break
+            src = src[2][0] if src[0] == "call" else src[1]
+        if src in self.declared:
+            for x in ([pat] if pat[0] == "var" else [y for y in pat[1] if is_term(y) and y[0] == "var"] if pat[0] == "tuplelit" else []):
+                self.declared.add(x)
         et = self.elem_type(it)
         if isinstance(et, tuple) and et[0] == "pair" and pat[0] == "tuplelit" and len(pat[1]) == 2:
             for x in pat[1]:
@@ -3574,6 +3607,8 @@ class Evaluator:
             return FALSE  # what is left after `while isinstance(x, C): x = x.attr` is not a C
         typ = self.typeof(x)
         verdict = self._isinstance_by_type(typ, names)
+        if x in self.declared:
+            verdict = None
         if verdict is True:
             return TRUE
         if verdict is False:
